@@ -18,7 +18,7 @@ import (
 // parameter bindings for calls to this pipeline with inputs which are no longer
 // required as a result of removing the calls.
 func RemoveUnusedCalls(pipe *syntax.Pipeline, asts []*syntax.Ast) Edit {
-	return removeUnusedCalls(pipe, asts)
+	return removeUnusedCalls(pipe, asts, nil)
 }
 
 // Create an edit for removing unused calls for all pipelines in the given asts.
@@ -33,12 +33,9 @@ func RemoveAllUnusedCalls(asts []*syntax.Ast) Edit {
 			id := makeDecId(pipe)
 			if _, ok := pipelines[id]; !ok {
 				pipelines[id] = struct{}{}
-				newEdits := removeUnusedCalls(pipe, asts)
-				if len(edits) == 0 {
-					edits = newEdits
-				} else if len(newEdits) > 0 {
-					edits = append(edits, newEdits...)
-				}
+				// Pass along the edits so far, so that the bindings and
+				// calls they remove are not seen as uses of an input.
+				edits = removeUnusedCalls(pipe, asts, edits)
 			}
 		}
 	}
@@ -86,7 +83,7 @@ func hasOutputs(c syntax.Callable) bool {
 	return p != nil && len(p.List) > 0
 }
 
-func removeUnusedCalls(pipe *syntax.Pipeline, asts []*syntax.Ast) editSet {
+func removeUnusedCalls(pipe *syntax.Pipeline, asts []*syntax.Ast, edits editSet) editSet {
 	if pipe.Callables == nil {
 		panic("pipeline was not fully compiled")
 	}
@@ -128,15 +125,14 @@ func removeUnusedCalls(pipe *syntax.Pipeline, asts []*syntax.Ast) editSet {
 		}
 	}
 	if len(calls) > 0 {
-		return removeCallSet(pipe, asts, calls)
+		return removeCallSet(pipe, asts, calls, edits)
 	}
-	return nil
+	return edits
 }
 
 func removeCallSet(pipe *syntax.Pipeline,
 	asts []*syntax.Ast,
-	calls StringSet) editSet {
-	edits := make(editSet, 0, len(calls))
+	calls StringSet, edits editSet) editSet {
 	for _, c := range pipe.Calls {
 		if calls.Contains(c.Id) {
 			fmt.Fprintf(os.Stderr,
